@@ -187,3 +187,48 @@ func VerifNextMonthHour() {
 	})
 	zzverif.Cover("next_month_and_hour_done")
 }
+
+// vCheckNextDays: as vCheckNext, with the day-of-week field in play. The weekday of every instant is tied to its date
+// by the calendar (years ylo..yhi for the start instant), so the Skolem instant x cannot have a weekday the real
+// calendar does not give it.
+func vCheckNextDays(s *SpecSchedule, constrain func(t time.Time)) {
+	const ylo, yhi = 2024, 2027
+	t := zzverif.CivilTimeYears("t", time.UTC, ylo, yhi)
+	constrain(t)
+	r := s.Next(t)
+	zzverif.Assert(!r.IsZero(), "next_exists")
+	zzverif.Assert(r.After(t), "next_strictly_after")
+	zzverif.Assert(r.Nanosecond() == 0, "next_on_whole_second")
+	zzverif.Assert(vMatches(s, r, true), "next_matches_expression_days")
+	x := zzverif.CivilTimeYears("x", time.UTC, ylo, yhi+1)
+	zzverif.Assume(x.Nanosecond() == 0)
+	zzverif.Assume(x.After(t))
+	zzverif.Assume(x.Before(r))
+	zzverif.Assert(!vMatches(s, x, true), "next_is_earliest_days")
+}
+
+// Day-of-week restricted, day-of-month '*': the day must be one of the listed weekdays.
+//
+//verif:harness prop=C04 name=next_dow unwind=70 qtimeout=30 solver=z3-new incr=off
+func VerifNextDow() {
+	s := vStar()
+	s.Dow = vMask("dow_mask", dow)
+	vCheckNextDays(s, func(t time.Time) {})
+	zzverif.Cover("next_dow_done")
+}
+
+// Both day fields restricted: a day matches if EITHER field matches (documented cron rule); with '?'/'*' in one of
+// them (star bit) both must match. The day-of-month mask is arbitrary: the weekday mask guarantees a match within a
+// week, which bounds the search loop.
+//
+//verif:harness prop=C04 name=next_either_day unwind=70 qtimeout=30 solver=z3-new incr=off
+func VerifNextEitherDay() {
+	s := vStar()
+	s.Dow = vMask("dow_mask", dow)
+	s.Dom = vMask("dom_mask", dom)
+	if zzverif.Bool("dom_is_star") {
+		s.Dom = all(dom)
+	}
+	vCheckNextDays(s, func(t time.Time) {})
+	zzverif.Cover("next_either_day_done")
+}
